@@ -353,28 +353,27 @@ def rule_6(ctx):
 
 
 def rule_7(ctx):
-    xm = ctx.mod('xlfunctions.xl')
-    inner = [f for q, f in xm.funcs.items() if q.startswith('validate_args.')]
-    if len(inner) != 1:
-        raise AnchorMissing('validate_args inner wrapper')
-    w = inner[0]
-    decs = [r for r, _ in ctx.res.decorators(w)]
-    ok = 'ext:functools.wraps' in decs
-    if ok:
-        d = w.decorator_list[decs.index('ext:functools.wraps')]
-        ok = isinstance(d, ast.Call) and d.args and isinstance(d.args[0], ast.Name) and d.args[0].id == func_params(xm.func('validate_args'))[0]
-    ctx.expect(ok, w, 'wrapper decorated with functools.wraps(func)',
-               'the wrapper does not carry the wrapped signature: FunctionNode.eval sees (*args, **kw) and neither wraps thunk '
-               'parameters nor binds defaults')
-    am = ctx.mod('ast_nodes')
-    ev = am.func('FunctionNode.eval')
-    sig = any(ctx.res.resolve(c.func, am) == 'ext:inspect.signature' for c in flow.calls_in(ev))
-    bind = any(isinstance(c.func, ast.Attribute) and c.func.attr == 'bind' and any(isinstance(a, ast.Starred) for a in c.args)
-               for c in flow.calls_in(ev))
-    ctx.expect(sig and bind, ev, 'arguments bound by signature', 'FunctionNode.eval does not bind the written arguments to the signature')
-    call = [r for r in value_returns(ev) if isinstance(r.value, ast.Call) and any(isinstance(a, ast.Starred) for a in r.value.args)]
-    ctx.expect(len(call) == 1, ev, 'function applied to the prepared arguments', 'the function is not applied to the evaluated arguments in order')
-    ctx.floor(3, 'signature preservation facts')
+    """The written arguments reach the function as its signature says - decided on a witness workbook evaluated as written:
+    omitted trailing arguments take the declared defaults, arguments keep their order, variable argument lists are passed in
+    full, delayed parameters receive unevaluated expressions (an unknown function in an unselected branch has no effect), too
+    many arguments are an error."""
+    from . import workbook as W
+    from . import scenarios as S
+    from .c10 import _as_value
+    anchor = ctx.mod('ast_nodes').func('FunctionNode.eval')
+    cells = {'A1': 5, 'F1': '=LEFT("abc")', 'F2': '=LEFT("abc",2)', 'F3': '=POWER(2,3)', 'F4': '=POWER(3,2)', 'F5': '=SUM(1,2,3,A1)',
+             'F6': '=IF(A1>0,1,NOSUCHFUNC(1))', 'F7': '=OR(A1>0,NOSUCHFUNC(1))', 'F8': '=IF(A1<0,NOSUCHFUNC(1))', 'F9': '=LEFT("abc",2,3)',
+             'F10': '=ROUND(2.567,1)', 'F11': '=MID("abcdef",2,3)', 'F12': '=CONCATENATE("a","b","c","d")', 'F13': '=ABS()', 'F14': '=MOD(7,4)', 'F15': '=MOD(4,7)'}
+    want = {'F1': 'a', 'F2': 'ab', 'F3': 8, 'F4': 9, 'F5': 11, 'F6': 1, 'F7': True, 'F8': False, 'F9': ('raise',), 'F10': 2.6, 'F11': 'bcd',
+            'F12': 'abcd', 'F13': ('raise',), 'F14': 3, 'F15': 4}
+    wb = W.Workbook(ctx, cells)
+    for a, w in want.items():
+        got = wb.value('Sheet1!' + a)
+        ok = (isinstance(got, tuple) and got[:1] == ('raise',)) if w == ('raise',) else S.same(got, _as_value(w))
+        ctx.expect(ok, anchor, f'arguments bound by signature: {cells[a]}',
+                   f'{a} = {cells[a]} evaluates to {got!r}, expected {"an error about the arguments" if w == ("raise",) else repr(w)}: FunctionNode.eval '
+                   'binds the written arguments to the signature of the registered function (defaults, order, var-args, delayed parameters)')
+    ctx.floor(15, 'argument binding cells')
 
 
 def _same(a, b):
